@@ -355,6 +355,26 @@ func c17Sequence(c *mon.Ctx, n *Node, fresh func() geojson.Object) {
 			return
 		}
 	}
+	// results handed out earlier stay intact while other objects are serialised
+	kept1, _ := o.MarshalJSON()
+	kept2 := o.AppendJSON(nil)
+	kept3 := o.AppendJSON(make([]byte, 3, 4096))[3:]
+	other := fresh()
+	for k := 0; k < 3; k++ {
+		_ = other.JSON()
+		_ = other.String()
+		ob, _ := other.MarshalJSON()
+		for i := range ob {
+			ob[i] = '!'
+		}
+	}
+	for k, kept := range [][]byte{kept1, kept2, kept3} {
+		if string(kept) != first {
+			c.Violation("retained-result-overwritten", "bytes returned by an earlier serialisation changed while another object was being serialised", mk([]string{"MarshalJSON", "AppendJSON(nil)", "AppendJSON(buf)"}[k]+" retained", string(kept)))
+			return
+		}
+	}
+	c.Count("retained_results_checked")
 	// a second object's output must not be disturbed by the first one's buffers either
 	o2 := fresh()
 	if j := o2.JSON(); j != first {
@@ -570,7 +590,7 @@ func truncate(s string, n int) string {
 }
 
 func init() {
-	must := []string{"grammar_documents_serialised", "append_first_sequences", "appends_into_spare_capacity", "nonfinite_ordinates", "features_with_member_text", "pointz", "kind_Circle", "parsed_with_members"}
+	must := []string{"retained_results_checked", "grammar_documents_serialised", "append_first_sequences", "appends_into_spare_capacity", "nonfinite_ordinates", "features_with_member_text", "pointz", "kind_Circle", "parsed_with_members"}
 	for _, k := range allKinds {
 		must = append(must, "kind_"+k)
 	}
